@@ -31,13 +31,16 @@ class FileBasedBuffer:
             from_file = from_buffer.getfile()
             read_pos = from_file.tell()
             from_file.seek(0)
-            while True:
-                data = from_file.read(COPY_BYTES)
-                if not data:
-                    break
-                file.write(data)
+            try:
+                while True:
+                    data = from_file.read(COPY_BYTES)
+                    if not data:
+                        break
+                    file.write(data)
+            finally:
+                # whatever happens to the copy, the source keeps its place
+                from_file.seek(read_pos)
             self.remain = int(file.tell() - read_pos)
-            from_file.seek(read_pos)
             file.seek(read_pos)
 
     def __len__(self):
@@ -50,8 +53,10 @@ class FileBasedBuffer:
         file = self.file
         read_pos = file.tell()
         file.seek(0, 2)
-        file.write(s)
-        file.seek(read_pos)
+        try:
+            file.write(s)
+        finally:
+            file.seek(read_pos)
         self.remain = self.remain + len(s)
 
     def get(self, numbytes=-1, skip=False):
@@ -234,7 +239,14 @@ class OverflowableBuffer:
             self._set_small_buffer()
         buf = self.buf
         if strbuf:
-            buf.append(self.strbuf)
+            try:
+                buf.append(self.strbuf)
+            except BaseException:
+                # the bytes are still in strbuf: go on looking for them there
+                self.buf = None
+                self.overflowed = False
+                buf.close()
+                raise
             self.strbuf = b""
         return buf
 
